@@ -27,16 +27,23 @@ import shutil
 import tempfile
 
 LEVEL = "proof"
-RULE = ("histories: every sequence of <= 2 steps (quick) / seeded sample of <= 4 steps (thorough) over the alphabet "
-        "{target, antitarget, fix(+-gc/edge/rmask), segment none/haar/hmm/hmm-tumor/hmm-germline x processes "
-        "{1,2,3,16}, segmetrics (ci/pi/sem, smoothed bootstrap), call none/threshold/clonal x filter lists, "
-        "genemetrics, breaks, bintest, metrics, export bed/vcf/seg/theta, center_all / shuffle on a copy, merge, flatten, "
-        "subtract, intersection, subdivide, resize, by_arm, by_gene, squash_genes, transfer_fields, "
-        "get_gene_intervals} on shared argument objects of seeded data sets, numpy+python RNG re-seeded before every "
-        "step; ensure_path: 1..5 writes x pre-existing numbered files; rng_trace: every table entry x input shapes; "
-        "gather: 0..12 tasks x workers {1,2,3,16}. non-trivial = a history with >= 2 steps, or a step that runs in "
-        "> 1 process, or a write onto an existing file, or a trace with >= 1 draw; distinct by hash")
-EXHAUSTIVE = {"quick": True, "thorough": False}
+RULE = ("histories on SHARED argument objects of seeded data sets (3-4 chromosomes, 100-250 bins, raw coverages + "
+        "reference with gc/rmask, baits, access, haar segments, segmetrics and call tables, filter / ignore / threshold "
+        "/ statistic lists, combiner dict): quick = EVERY sequence of <= 2 steps over the 46-step base alphabet {target, "
+        "antitarget, fix (+- corrections), segment none/haar/haar+skip/hmm/hmm-tumor/hmm-germline, segmetrics (ci/pi/sem, "
+        "smoothed bootstrap, skip_low), call none/threshold/clonal x filter lists ci,cn / sem / ampdel / cn,ci,cn, "
+        "genemetrics (genes, segments, called segments), breaks, bintest (+target_only), metrics, export bed/vcf/seg/"
+        "theta, center_all and shuffle on a copy, merge, flatten, subtract, intersection, subdivide, resize, by_arm, "
+        "by_gene (default / list / tuple ignore), squash_genes, transfer_fields, get_gene_intervals} + the worker-count "
+        "variants (processes 2,3,16) with sampled partners; thorough = every pair over the full alphabet + 3500 sampled "
+        "sequences of 3-4 steps; numpy and python RNG re-seeded with a fresh value before every step, reference = same "
+        "call on fresh copies, 1 worker, another RNG state. ensure_path: 1..5 guarded writes x directories holding "
+        "the path, numbered backups with gaps, look-alike names, sub-directories. rng_trace: every runnable entry of "
+        "the generated RNG table x input shapes, plus functions the table must not list. gather: 0..12 tasks finishing "
+        "in scrambled order x workers {1,2,3,16}. non-trivial = a history with >= 2 steps or a step run in > 1 "
+        "process, >= 2 writes or a write onto an existing file, a trace with >= 1 draw, a pool with > 1 worker; "
+        "distinct by hash")
+EXHAUSTIVE = {"quick": True, "thorough": True}  # all histories of length <= 2 (quick: base alphabet; thorough: full)
 ASSUMPTIONS = ["argument objects are those a Python caller would pass: CopyNumArray/GenomicArray tables, lists of "
                "strings, dicts; snapshots compare frames incl. index and dtypes, lists, dicts minus chr_x/chr_y meta",
                "results are compared through a canonical digest (floats at 12 significant digits, NaN = null)",
@@ -791,7 +798,7 @@ def gen_cases(rng, tier):
             for b in allops:
                 if not (a.endswith("@p16") and b.endswith("@p16")):
                     cases.append(_hist(rng.choice(dss), [a, b], rng, "len2"))
-        n_ep, n_tr, n_ga, n_long = 1200, 100, 80, 5000
+        n_ep, n_tr, n_ga, n_long = 1200, 100, 80, 3500
     else:  # search: biased to the steps that reach the generators, the pools and the list arguments
         n_ep, n_tr, n_ga, n_long = 200, 100, 10, 500
     hot = ["fix", "segmetrics", "segmetrics-smooth", "call-ci-cn", "call-sem", "call-cc", "by_gene-list", "squash_genes-list",
